@@ -889,15 +889,14 @@ class SourceCatalog:
         These arrays are used to derive moment-based properties.
         """
         cutouts = []
-        for convdata_cutout, mask_cutout, segmmask_cutout in zip(
-                self._convdata_cutouts, self._mask_cutouts,
-                self._cutout_segment_masks, strict=True):
+        # the total mask combines the segment mask, the input mask, and
+        # the non-finite data values (which are automatically masked)
+        for convdata_cutout, total_mask in zip(
+                self._convdata_cutouts, self._cutout_total_masks,
+                strict=True):
 
             convdata_mask = (~np.isfinite(convdata_cutout)
-                             | (convdata_cutout < 0) | segmmask_cutout)
-
-            if self._mask is not None:
-                convdata_mask |= mask_cutout
+                             | (convdata_cutout < 0) | total_mask)
 
             cutout = convdata_cutout.copy()
             cutout[convdata_mask] = 0.0
